@@ -257,6 +257,48 @@ class FuncArm(Arm):
                                 f"d/dt {k_} at t={t_time}: generated {got[pos[k_][0]]!r}, reference {rv!r}; pairs "
                                 f"{sorted(pairs)}, positions {pos}")
                     return res
+        # ---- delays given as operator parameters are function arguments: the look-up follows the value passed at call time
+        pdel = {}
+        for p_, nt in spec["nodes"]:
+            for o in spec["ntypes"][nt]["ops"]:
+                od = spec["ops"][o]
+                vals = {v[0]: v[2] for v in od["vars"]}
+                for e in od["eqs"]:
+                    for t_ in E.past_terms(e[2]):
+                        if isinstance(t_[2], list):
+                            pdel[f"{p_}/{o}/{t_[2][1]}"] = float(vals[t_[2][1]])
+        pdel = {k_: v for k_, v in pdel.items() if k_ in c.names}
+        if pdel:
+            res.labels.append("param_delay_changed_at_call")
+            ov = {k_: round(v * 1.37 + 0.013, 6) for k_, v in pdel.items()}
+            tt, yvals = case["ts"][0], case["ys"][0]
+            t_arg = int(round(tt / dt)) if not adaptive else tt
+            t_time = t_arg * dt if not adaptive else tt
+
+            def hist_ref2(path, delay):
+                return float(Hist(c.n, case["hist"])(t_time - delay)[pos[path][0]])
+
+            def edge_src2(ei, value):
+                if ei in delayed_edges:
+                    v = hist_ref2(rm.edges[ei]["s"], delayed_edges[ei])
+                    return (v, abs(v))
+                return value(rm.edges[ei]["s"])
+            ref = rm.vf(dict(zip(sp, yvals)), params=ov, t=t_time, hist=hist_ref2, edge_src=edge_src2)
+            yv = np.zeros(c.n)
+            for k_, v in zip(sp, yvals):
+                yv[pos[k_][0]] = v
+            try:
+                got = c.call(t_arg, yv, ov, hist=Hist(c.n, case["hist"]))
+            except Exception as e:
+                res.violate(exc_bucket("call-raises:changed-delay", e), f"{short_exc(e)}")
+                return res
+            for k_ in sp:
+                rv, mag = ref[k_]
+                if not abs(got[pos[k_][0]] - rv) <= 1e-9 * mag + 1e-11:
+                    res.violate(f"delay-argument-ignored:{'adaptive' if adaptive else 'fixed'}",
+                                f"d/dt {k_} at t={t_time} with delay arguments {ov} (declared {pdel}): generated "
+                                f"{got[pos[k_][0]]!r}, reference {rv!r}")
+                    return res
         return res
 
     def valid(self, case):
@@ -325,7 +367,7 @@ class RunArm(Arm):
     budget = {"quick": 400, "thorough": 4000}
     min_per_shard = 10
     case_timeout = 120
-    required_labels = ("euler", "scipy", "delay_not_multiple_of_dt")
+    required_labels = ("euler", "scipy", "delay_not_multiple_of_dt", "coarse_sampling")
 
     def strategy(self, ctx):
         @st.composite
@@ -333,7 +375,8 @@ class RunArm(Arm):
             spec, pairs = add_past_terms(draw, base_strategy(draw))
             return {"spec": spec, "cfg": {"solver": draw(st.sampled_from(["euler", "euler", "scipy"])),
                                           "dt": draw(st.sampled_from([0.01, 0.02, 0.03])),
-                                          "steps": draw(st.integers(20, 60)), "vectorize": False}}
+                                          "steps": draw(st.integers(20, 60)), "vectorize": False,
+                                          "coarse": draw(st.sampled_from([8, 10, 15]))}}
         from ..finding_predicates import repair_case
         return case().map(lambda c: repair_case(c, ctx))
 
@@ -406,6 +449,33 @@ class RunArm(Arm):
             res.violate("shape", f"run returned {a.shape}, expected {ref.shape}")
             return res
         err = float(np.max(np.abs(a - ref) / (1.0 + np.abs(ref))))
+        if solver == "scipy" and err <= tol:
+            # the history the solver keeps is the computed trajectory itself (every accepted step), so what run returns at
+            # a time point does not depend on how coarsely the output is sampled - also when the sampling step is as
+            # large as the delays (unchanged tree: <= 4.3e-3 over the quick budget, because the integrator is restarted
+            # at every output time; a history that only knows the output grid gives 1e-2 .. 3e-1)
+            m = int(cfg.get("coarse", 10))
+            if steps >= 2 * m:
+                try:
+                    dfc = run_circuit(spec, T, dt, dict(outputs), vectorize=False, solver=solver, dts=m * dt, **kw)
+                    ac = np.column_stack([np.asarray(dfc[f"v{i}"], dtype=float) for i in range(len(sp))])
+                except HarnessError:
+                    raise
+                except Exception as e:
+                    res.violate(exc_bucket(f"run-raises:{solver}:coarse-sampling", e), f"delays {delays}: {short_exc(e)}")
+                    return res
+                res.labels.append("coarse_sampling")
+                n = min(len(ac), len(a[::m]))
+                dev = float(np.max(np.abs(ac[:n] - a[::m][:n]) / (1.0 + np.abs(a[::m][:n])))) if n else 0.0
+                import os as _os
+                if _os.environ.get("PV_C10_DEVLOG"):
+                    with open(_os.environ["PV_C10_DEVLOG"], "a") as fh:
+                        fh.write(f"{dev:.3e} {m} {dt} {delays}\n")
+                if dev > 1.2e-2:
+                    res.violate("scipy-result-depends-on-sampling-step",
+                                f"run(solver='scipy') with sampling_step_size={m}*dt deviates by {dev:.3g} (rel.) from the run "
+                                f"with sampling_step_size=dt at the common time points; delays {delays}, dt={dt}")
+                    return res
         if err > tol:
             j = int(np.argmax(np.max(np.abs(a - ref), axis=0)))
             res.violate(f"wrong-trajectory:{solver}", f"{sp[j]}: max rel. deviation {err:.3g} from the "
